@@ -166,7 +166,13 @@ def step (st : St) (op implObs : String) : St × String × List String :=
         (addTags { st with s := s' } ["branch:choked-skip"], line "-" [] [] none s', afterChecks st hist itoks)
     | "rejected" =>
       let (s', r) := rejected s (kvNat toks "begin") (kvNat toks "len")
-      (addTags { st with s := s' } [s!"branch:rejected-{boolStr r}"], line (boolStr r) [] [] none s', afterChecks st st.hist itoks)
+      -- C10: a request the peer rejected is no longer outstanding; otherwise stale entries fill the request
+      -- window and nothing is ever asked of this peer again
+      let implPend := kvStr itoks "pend"
+      let modelPend := kvStr (words (line (boolStr r) [] [] none s')) "pend"
+      let c10 := if r && implPend ≠ "" && implPend ≠ modelPend then
+        [s!"C10 rejected-request-still-counted-as-outstanding impl={implPend} model={modelPend}"] else []
+      (addTags { st with s := s' } [s!"branch:rejected-{boolStr r}"], line (boolStr r) [] [] none s', afterChecks st st.hist itoks ++ c10)
     | "request" =>
       let q := kvInt toks "q"
       let hist := st.hist ++ [.requestBlocks q]
